@@ -5,49 +5,110 @@ import (
 	"errors"
 	"fmt"
 	"io"
-	"math/rand/v2"
 	"strings"
-
-	"oras.land/oras-go/v2/verifharness/worker"
 )
 
 // seekScript runs a random Read/Seek script on rs and, step by step, on a
 // bytes.Reader over the true content; it returns the script and the first
 // difference (returned offsets, bytes, EOF, refusal of a position before the start).
-func seekScript(rng *rand.Rand, rs io.ReadSeeker, truth []byte, res *worker.Result) (string, string) {
+//
+// Some position-changing Seeks meet an injected fault on their range request
+// (non-206 status, 5xx, dropped connection). The statement does not say where
+// a reader stands after a failed Seek, so the library is asked
+// (Seek(0, SeekCurrent)): it must name either the position before the Seek or
+// the requested one, and from then on every step must agree with the model
+// placed at the position the library itself reported. The script then retries
+// the same Seek or reads on.
+func seekScript(v *env, rs io.ReadSeeker, truth []byte) (string, string) {
+	rng, res := v.rng, v.res
 	ref := bytes.NewReader(truth)
 	size := int64(len(truth))
 	var script []string
+	done := func(problem string) (string, string) { return strings.Join(script, " "), problem }
 	steps := 3 + rng.IntN(9)
-	for s := 0; s < steps; s++ {
-		if rng.IntN(2) == 0 {
-			whence := rng.IntN(3)
-			if rng.IntN(25) == 0 {
-				whence = 7
-			}
+	faultsLeft := 2
+	var retry *[2]int64 // a Seek to repeat next
+	needRead := false // a fault was injected and no bytes were looked at since
+	for s := 0; s < steps || needRead || retry != nil; s++ {
+		if retry != nil || (!(needRead && s >= steps-1) && rng.IntN(2) == 0) {
 			var off int64
-			switch rng.IntN(6) {
-			case 0:
-				off = 0
-			case 1:
-				off = -1 - rng.Int64N(size+3)
-			case 2:
-				off = size + rng.Int64N(6) - 2
-			default:
-				off = rng.Int64N(size+2) - int64(whence/2)*size // SeekEnd gets mostly negative offsets
-				if whence == io.SeekCurrent {
-					off = rng.Int64N(2*size+2) - size
+			var whence int
+			if retry != nil {
+				off, whence = retry[0], int(retry[1])
+				retry = nil
+			} else {
+				whence = rng.IntN(3)
+				if rng.IntN(25) == 0 {
+					whence = 7
+				}
+				switch rng.IntN(6) {
+				case 0:
+					off = 0
+				case 1:
+					off = -1 - rng.Int64N(size+3)
+				case 2:
+					off = size + rng.Int64N(6) - 2
+				default:
+					off = rng.Int64N(size+2) - int64(whence/2)*size // SeekEnd gets mostly negative offsets
+					if whence == io.SeekCurrent {
+						off = rng.Int64N(2*size+2) - size
+					}
 				}
 			}
-			script = append(script, fmt.Sprintf("seek(%d,%d)", off, whence))
+			fault := 0
+			if faultsLeft > 0 && rng.IntN(3) == 0 {
+				fault = 1 + rng.IntN(len(rangeFaults)-1)
+			}
+			label := fmt.Sprintf("seek(%d,%d)", off, whence)
+			if fault != 0 {
+				label += "!" + rangeFaults[fault]
+			}
+			script = append(script, label)
+			before, _ := ref.Seek(0, io.SeekCurrent)
+			firedBefore := v.faultFired.Load()
+			v.faultArmed.Store(int32(fault))
 			a, aerr := rs.Seek(off, whence)
-			b, berr := ref.Seek(off, whence)
+			v.faultArmed.Store(0)
+			fired := v.faultFired.Load() != firedBefore
 			res.Count("seek_steps", 1)
+			b, berr := ref.Seek(off, whence)
+			if fired && aerr != nil && berr == nil {
+				// the range request met the fault and the Seek failed
+				faultsLeft--
+				res.Count("seek_faults_injected", 1)
+				res.Observe("seek_fault_kinds", rangeFaults[fault])
+				p, perr := rs.Seek(0, io.SeekCurrent)
+				if perr != nil {
+					return done(fmt.Sprintf("step %d: after a failed %s, Seek(0, SeekCurrent) fails: %v", s, label, perr))
+				}
+				if p != before && p != b {
+					return done(fmt.Sprintf("step %d: after a failed %s the reader reports position %d, neither the old %d nor the requested %d", s, label, p, before, b))
+				}
+				if p == before {
+					res.Count("failed_seek_kept_position", 1)
+				} else {
+					res.Count("failed_seek_took_requested_position", 1)
+				}
+				ref.Seek(p, io.SeekStart)
+				script = append(script, fmt.Sprintf("pos=%d", p))
+				if rng.IntN(2) == 0 {
+					retry = &[2]int64{off, int64(whence)}
+					if whence == io.SeekCurrent {
+						// relative to the position reported now
+						retry = &[2]int64{b - p, io.SeekCurrent}
+					}
+				}
+				needRead = true // always look at the bytes after a failed Seek
+				continue
+			}
+			if fired {
+				res.Count("seek_faults_absorbed", 1) // e.g. the transport replayed the request on a fresh connection
+			}
 			if (aerr != nil) != (berr != nil) {
-				return strings.Join(script, " "), fmt.Sprintf("step %d Seek(%d,%d): error %v, bytes.Reader says %v", s, off, whence, aerr, berr)
+				return done(fmt.Sprintf("step %d Seek(%d,%d): error %v, bytes.Reader says %v", s, off, whence, aerr, berr))
 			}
 			if aerr == nil && a != b {
-				return strings.Join(script, " "), fmt.Sprintf("step %d Seek(%d,%d) = %d, bytes.Reader says %d", s, off, whence, a, b)
+				return done(fmt.Sprintf("step %d Seek(%d,%d) = %d, bytes.Reader says %d", s, off, whence, a, b))
 			}
 			if aerr != nil {
 				res.Count("seek_refusals", 1)
@@ -63,15 +124,16 @@ func seekScript(rng *rand.Rand, rs io.ReadSeeker, truth []byte, res *worker.Resu
 		na, ea := io.ReadFull(rs, pa)
 		nb, eb := io.ReadFull(ref, pb)
 		res.Count("read_steps", 1)
+		needRead = false
 		if na != nb || !bytes.Equal(pa[:na], pb[:nb]) {
-			return strings.Join(script, " "), fmt.Sprintf("step %d Read(%d): got %d bytes, want %d; content equal=%v", s, k, na, nb, bytes.Equal(pa[:min(na, nb)], pb[:min(na, nb)]))
+			return done(fmt.Sprintf("step %d Read(%d): got %d bytes, want %d; content equal=%v", s, k, na, nb, bytes.Equal(pa[:min(na, nb)], pb[:min(na, nb)])))
 		}
 		if (ea == nil) != (eb == nil) || errors.Is(ea, io.ErrUnexpectedEOF) != errors.Is(eb, io.ErrUnexpectedEOF) || (ea == io.EOF) != (eb == io.EOF) {
-			return strings.Join(script, " "), fmt.Sprintf("step %d Read(%d): error %v, bytes.Reader says %v", s, k, ea, eb)
+			return done(fmt.Sprintf("step %d Read(%d): error %v, bytes.Reader says %v", s, k, ea, eb))
 		}
 		if ea != nil {
 			res.Count("read_eof_steps", 1)
 		}
 	}
-	return strings.Join(script, " "), ""
+	return done("")
 }
